@@ -809,12 +809,68 @@ def opTftt (args : List String) : Option String := do
   | _ => none
 end TDOps
 
+/-! ### C08 assembly of the model coefficients (complex doubles) -/
+section AssemblyOps
+open Arim.Assembly Arim.ScatMat
+
+def floatF : FOps Float := { floor := Arim.Num.floatFloor, ofInt := fun z => Float.ofInt z }
+
+/-- `assemble <sw 4 bits> <dir> <trans> <beam> <att> <rtrans> <rbeam> <sqrtlam>` (complex re,im) → tx weight | rx weight -/
+def opAssemble (args : List String) : Option String := do
+  match args with
+  | [sw, vals] =>
+    let b := sw.toList.map (· == '1')
+    let vals ← cfList? vals
+    match b, vals with
+    | [d, t, bm, a], [dir, trans, beam, att, rtrans, rbeam, sl] =>
+      let s : Switches := { directivity := d, transrefl := t, beamspread := bm, attenuation := a }
+      pure (showCF (txWeight s ⟨1, 0⟩ dir trans beam att) ++ "|" ++ showCF (rxWeight s ⟨1, 0⟩ dir rtrans rbeam att sl))
+    | _, _ => none
+  | _ => none
+
+def cfMat? (s : String) : Option (List (List CF)) := (splitNE s ";").mapM cfList?
+def cmat2 (m : List (List CF)) : Nat → Nat → CF :=
+  let a := (m.map List.toArray).toArray
+  fun i j => (a.getD i #[]).getD j ⟨0, 0⟩
+
+/-- `modelamp <tx> <rx> <Q rows> <Q' rows> <thTx rows> <thRx rows> <a> f <c0..c3>` or `... m <n> <M rows>`
+    → amplitudes[p][k] -/
+def opModelAmp (args : List String) : Option String := do
+  match args with
+  | tx :: rx :: q :: q' :: ttx :: trx :: a :: kind :: rest =>
+    let tx ← natList? tx; let rx ← natList? rx
+    let q ← cfMat? q; let q' ← cfMat? q'
+    let ttx ← floatMat? ttx; let trx ← floatMat? trx; let a ← float? a
+    let S ← (match kind, rest with
+      | "f", [cs] => do
+        let cs ← cfList? cs
+        match cs with
+        | [c0, c1, c2, c3] =>
+          pure (fun (x y : Float) => c0 + c1 * CF.ofReal (Float.sin x) + c2 * CF.ofReal (Float.cos (2 * y)) + c3 * CF.ofReal (Float.sin (x - 2 * y)))
+        | _ => none
+      | "m", [n, m] => do
+        let n ← nat? n; let m ← cfMat? m
+        let mre := fun j i => (cmat2 m j i).re
+        let mim := fun j i => (cmat2 m j i).im
+        pure (fun (x y : Float) => (⟨interp floatF Arim.Num.pi n mre x y, interp floatF Arim.Num.pi n mim x y⟩ : CF))
+      | _, _ => none)
+    let npts := ttx.length
+    let txf := fun k => tx.toArray.getD k 0
+    let rxf := fun k => rx.toArray.getD k 0
+    let res := (List.range npts).map (fun p => (List.range tx.length).map (fun k =>
+      modelAmp S (mat2 ttx 0) (mat2 trx 0) (cmat2 q) (cmat2 q') a txf rxf p k))
+    pure (join (res.map (fun row => join (row.map showCF) ";")) "|")
+  | _ => none
+end AssemblyOps
+
 def route (op : String) (args : List String) : String :=
   let r : Option String :=
     match op with
     | "fermat" => opFermat args
     | "minplus" => opMinPlus args
     | "chunks" => opChunks args
+    | "assemble" => opAssemble args
+    | "modelamp" => opModelAmp args
     | "toneburst" => opToneburst args
     | "tb2" => opTb2 args
     | "hilbert" => opHilbert args
